@@ -255,6 +255,10 @@ func (d *distDomain) step(f []string) string {
 	setNow(i)
 	switch {
 	case f[0] == "screate" && len(f) == 6:
+		if f[3] == "~" { // the empty client identifier
+			f = append([]string{}, f...)
+			f[3] = ""
+		}
 		err := st.SessionMetadatas().Create(f[2], f[3], 0, parseWill(f[5]), f[4])
 		res := "ok"
 		if err == distributed.ErrSessionMetadatasExists {
